@@ -3,6 +3,7 @@ package main
 // The checks register themselves in init functions of their packages.
 import (
 	_ "verif/h/c01"
+	_ "verif/h/c07"
 	_ "verif/h/c14"
 	_ "verif/h/c15"
 	_ "verif/h/c16"
